@@ -1135,6 +1135,7 @@ func damagedFreeLists() {
 // the n entries. Go's map order makes the repair nondeterministic: compared is the well-formedness of the
 // result and the set of free entries (the model is proved well-formed for every order).
 func freeListUnits() {
+	unitFails := 0
 	maxN := r.Pick(4, 5)
 	run := func(n int, links []int, gens []int) {
 		size := n + 3
@@ -1178,7 +1179,10 @@ func freeListUnits() {
 			}
 			if fl := freeListFindings(xe); len(fl) > 0 {
 				res = "broken"
-				r.OracleFail("free-list-broken:EnsureValidFreeList", map[string]any{"head": links[0], "free": fs, "inuse": n + 1}, strings.Join(fl, "; "))
+				if unitFails < 25 { // the oracle log is capped: leave room for the document-level findings
+					r.OracleFail("free-list-broken:EnsureValidFreeList", map[string]any{"head_link": links[0], "free(nr:next:gen)": freesArg(fs), "inuse": n + 1, "missing": n + 2}, strings.Join(fl, "; "))
+				}
+				unitFails++
 				return
 			}
 			r.OracleOK()
